@@ -84,8 +84,13 @@ def check_tolerance(ck, f, bound, side, limits_names, abs_names, rel_names, shp=
             changed = False
             if isinstance(core, ast.Attribute) and core.attr == "T":
                 core, changed = core.value, True
-            elif isinstance(core, ast.Call) and call_name(core) == "tile" and core.args:
+            elif isinstance(core, ast.Call) and call_name(core) in ("tile", "broadcast_to", "repeat") and core.args:
                 core, changed = core.args[0], True
+            elif isinstance(core, ast.Call) and call_name(core) == "reshape" and isinstance(core.func, ast.Attribute) and dotted(core.func.value) not in ("np", "numpy"):
+                core, changed = core.func.value, True
+            elif isinstance(core, ast.Subscript) and any((isinstance(x, ast.Constant) and x.value is None) or dotted(x) in ("np.newaxis", "numpy.newaxis")
+                                                         for x in (core.slice.elts if isinstance(core.slice, ast.Tuple) else [core.slice])):
+                core, changed = core.value, True          # x[:, np.newaxis]: the same values as a column
         if isinstance(core, ast.BinOp) and isinstance(core.op, ast.Add):
             for lim, tol in ((core.left, core.right), (core.right, core.left)):
                 lim0 = lim.value if isinstance(lim, ast.Subscript) else lim
